@@ -299,6 +299,19 @@ pub struct Assignment {
     pub idx: usize,
 }
 
+/// Verification hook: an already resolved, anonymous RHS assignment.
+#[cfg(feature = "verif")]
+pub(crate) fn verif_resolved(index: SymbolIndex) -> ResolvingAssignment {
+    ResolvingAssignment {
+        name: None,
+        symbol: ResolvingSymbolIndex {
+            index: Some(index),
+            symbol: GrammarSymbol::Name(Name::new(String::new(), None)),
+        },
+        is_bool: false,
+    }
+}
+
 /// Called for Assignment to extract resolved SymbolIndex.
 #[inline]
 pub(crate) fn res_symbol(assign: &ResolvingAssignment) -> SymbolIndex {
